@@ -309,6 +309,9 @@ def run(ctx):
                       'that the generated scanner is byte-identical with and without -w beyond the effect summary of the two readers']
     rep.assumptions += ['clang -O0 IR of flex as built by the repository\'s own make', 'stderr is not redirected into an output file by the user',
                         'effect summaries treat libc functions not listed as effectful (so an unknown callee is a violation, not a pass)']
+    import c17_tbl
+    rep.setcount('warning_probe_rules', c17_tbl.run(ctx, rep))
+    rep.floor('C17.R3', 100, 'rules of 4 warning probes x 4 option sets')
     return rep.finish('other',
         'Who-reads rule over all %d functions of flex for env.nowarn with an interprocedural effect summary (stores outside the function\'s own '
         'locals, streams other than stderr, unknown callees) of everything control dependent on the loaded value; def/use census of '
